@@ -240,7 +240,7 @@ class ConstEval:
           raise NotConst("ValueError")
         except Exception as ex:
           raise NotConst(str(ex))
-      if isinstance(e.func, ast.Attribute) and e.func.attr in ("join", "lower", "upper", "strip", "rstrip", "lstrip", "get", "split", "startswith", "endswith", "isdigit", "replace", "zfill", "index", "count") and not e.keywords:
+      if isinstance(e.func, ast.Attribute) and e.func.attr in ("join", "lower", "upper", "strip", "rstrip", "lstrip", "get", "split", "startswith", "endswith", "isdigit", "replace", "zfill", "index", "count", "__floor__", "__ceil__", "__trunc__", "__int__", "__round__") and not e.keywords:
         try:
           recv = self._ev(m, e.func.value, cls, env)
           vals = [self._ev(m, a, cls, env) for a in args]
@@ -256,6 +256,8 @@ class ConstEval:
           if e.func.attr in ("split", "startswith", "endswith") and len(vals) <= 2 and all(isinstance(x, (str, int, tuple)) for x in vals):
             r_ = getattr(recv, e.func.attr)(*vals)
             return r_
+        if isinstance(recv, (int, Fraction)) and not isinstance(recv, bool) and e.func.attr in ("__floor__", "__ceil__", "__trunc__", "__int__", "__round__") and vals is not None and len(vals) <= 1:
+          return getattr(recv, e.func.attr)(*vals)
         if isinstance(recv, (list, tuple)) and e.func.attr in ("index", "count") and vals is not None and len(vals) == 1:
           try:
             return getattr(recv, e.func.attr)(vals[0])
@@ -462,6 +464,10 @@ class _CallingConstEval(ConstEval):
       k = f"{e.value.id}.{e.attr}"
       if k in env:
         return env[k]
+    if isinstance(e, ast.Attribute) and isinstance(e.value, ast.Attribute):
+      k = dotted(e)
+      if k is not None and k in env:
+        return env[k]          # a deeper field of an abstract argument: 'value.x.units'
     if isinstance(e, ast.Call):
       fn = e.func
       target = None
